@@ -68,10 +68,10 @@ env_proof! {
     }
 }
 
-// @harness name=c01_commit_userdata prop=C01 tier=quick timeout=1200
+// @harness name=c01_commit prop=C01 tier=quick timeout=1200
 env_proof! {
     unwind = 6, rot = ghost, crc = off,
-    fn c01_commit_userdata() {
+    fn c01_commit() {
         let (mut rl, mut m) = mk();
         let id: Id = kani::any();
         let ok = is_ok(rl.commit(id));
@@ -80,12 +80,22 @@ env_proof! {
             m.do_commit(id);
             assert_matches(&rl, &m);
             kani::cover!(true, "commit accepted");
-            let u: Option<u8> = kani::any();
-            let ok2 = is_ok(rl.save_user_data(u));
-            assert!(ok2, "save_user_data is always accepted");
-            m.user_data = u;
-            assert_matches(&rl, &m);
         }
+        core::mem::forget(rl);
+    }
+}
+
+// @harness name=c01_userdata prop=C01 tier=quick timeout=1200
+env_proof! {
+    unwind = 6, rot = ghost, crc = off,
+    fn c01_userdata() {
+        let (mut rl, mut m) = mk();
+        let u: Option<u8> = kani::any();
+        let ok = is_ok(rl.save_user_data(u));
+        assert!(ok, "save_user_data is always accepted");
+        m.user_data = u;
+        assert_matches(&rl, &m);
+        kani::cover!(u.is_none(), "user data cleared");
         core::mem::forget(rl);
     }
 }
